@@ -258,11 +258,22 @@ func convertContextToJSONLD(context *server.Context) map[string]interface{} {
 	return jsonLdContext
 }
 
+// datasetParam returns the dataset name of the request path as the authorizer saw it, i.e.
+// percent-decoded exactly once: the router hands out the parameter still encoded when it
+// matched on URL.RawPath, and already decoded when it matched on URL.Path.
+func datasetParam(c echo.Context) (string, error) {
+	name := c.Param("dataset")
+	if c.Request().URL.RawPath == "" {
+		return name, nil
+	}
+	return url.PathUnescape(name)
+}
+
 // getEntitiesHandler
 // path param dataset
 // query param continuationToken
 func (handler *datasetHandler) getEntitiesHandler(c echo.Context) error {
-	datasetName, err := url.QueryUnescape(c.Param("dataset"))
+	datasetName, err := datasetParam(c)
 	if err != nil {
 		return c.NoContent(http.StatusBadRequest)
 	}
